@@ -16,6 +16,8 @@ use sucds::int_vectors::{
 use sucds::mii_sequences::{EliasFano, EliasFanoBuilder};
 use sucds::Serializable;
 
+mod big;
+
 enum Obj {
     Bv(BitVector),
     R9(Rank9Sel),
@@ -970,6 +972,7 @@ fn main() {
             "ut" => utils(&t),
             "sem" => sem(&t),
             "prim" => prim(&t),
+            "big" => big::big(&t),
             "drop" => {
                 st.objs.remove(&num(t[1])?);
                 Ok("ok".into())
